@@ -9,3 +9,29 @@ package utils
 //@   property C20
 //@   modifies a.args
 //@   ensures[empty] len(a.args) == 0
+
+// argsPool is assigned once, in init, with a fresh pool object
+//@ constglobal argsPool @C20
+
+//@ func AcquireArgs
+//@   property C20
+//@   ensures[empty] len(result.args) == 0
+
+//@ func ReleaseArgs
+//@   property C20
+
+//@ func init$argsPool.New
+//@   property C20
+//@   ensures[pool-new-empty] istype(result, type(*Args)) && len(as(result, type(*Args)).args) == 0
+
+//@ func (*ByteBuffer).Reset
+//@   property C20
+//@   modifies b.B
+//@   ensures[empty] len(b.B) == 0
+
+//@ func (*BufferPool).Get
+//@   property C20
+//@   ensures[empty-buffer] len(result.B) == 0
+
+//@ func (*BufferPool).Put
+//@   property C20
